@@ -47,6 +47,7 @@ type switchCmd struct {
 	B    string `json:"b"`
 	N    int    `json:"n"`
 	ID   string `json:"id"` // node id of the thread (for the trace spec; not used here)
+	Opt  bool   `json:"opt"` // the run simply ends here when this command cannot be executed (hand-made schedules)
 }
 
 type switchRunDef struct {
@@ -934,6 +935,9 @@ func switchRun(def switchRunDef, sleepOK bool, emit func(map[string]interface{})
 	for k, c := range def.Cmds {
 		note, did := h.exec(c, sleepOK)
 		if !did {
+			if c.Opt {
+				break
+			}
 			emit(map[string]interface{}{"ev": "Skip", "k": k, "c": c, "why": note})
 			return
 		}
